@@ -229,17 +229,23 @@ Definition xml_header (l : xlang) (o : opts) : bytes :=
 
 (* what xml_encode_tag looks for above the node: the code page of the nearest ancestor that is an element with
    a token name (the loop over node->parent skips literal elements and CDATA nodes); None = there is none *)
-Definition pinfo := option N.
+Record pinfo := mk_pinfo {
+  p_page : option N;          (* code page of the nearest token-named ancestor element *)
+  p_tag : option trow         (* node->parent's tag entry when the parent is an element with a token name *)
+}.
+Definition proot : pinfo := mk_pinfo None None.
 
 (* the information the children of an element / of a CDATA node are encoded with *)
 Definition pinfo_below (parent : pinfo) (nm : tname) : pinfo :=
-  match nm with TTok r => Some (tr_page r) | TLit _ => parent end.
+  match nm with TTok r => mk_pinfo (Some (tr_page r)) (Some r) | TLit _ => mk_pinfo (p_page parent) None end.
+(* below a CDATA node: node->parent is not an element *)
+Definition pinfo_cdata (parent : pinfo) : pinfo := mk_pinfo (p_page parent) None.
 
 (* only a token name has a code page (node->name->type == WBXML_VALUE_TOKEN is tested first) *)
 Definition ns_wanted (parent : pinfo) (nm : tname) : bool :=
   match nm with
   | TLit _ => false
-  | TTok r => match parent with None => true | Some pg => negb (pg =? tr_page r) end
+  | TTok r => match p_page parent with None => true | Some pg => negb (pg =? tr_page r) end
   end.
 
 Definition xmlns_part (l : xlang) (parent : pinfo) (nm : tname) : bytes :=
@@ -309,8 +315,15 @@ Definition syncml_type_rewrite (l : xlang) (t : option trow) (tmp : bytes) : byt
   then s_dmtnds_xml else tmp1.
 
 (* returns None when the node is skipped by parse_text (ignorable blank text) *)
-Definition text_policy (o : opts) (s : est) (content : bytes) : option bytes :=
-  if negb (e_in_cdata s) && negb (tag_is_binary (e_cur_tag s)) && negb (is_canonical o) then
+(* the tag whose WBXML_TAG_OPTION_BINARY option decides how a text node is treated: encoder->current_tag, which
+   is only set while the FIRST child of an element is encoded (it is reset after every node).  The parent's own
+   tag entry ([p_tag parent]) is NOT consulted by the current code — pending finding "binary-later-text":
+   the repair makes this  match e_cur_tag s with Some r => Some r | None => p_tag parent end . *)
+Definition text_tag (s : est) (parent : pinfo) : option trow :=
+  match e_cur_tag s with Some r => Some r | None => p_tag parent end.
+
+Definition text_policy (o : opts) (parent : pinfo) (s : est) (content : bytes) : option bytes :=
+  if negb (e_in_cdata s) && negb (tag_is_binary (text_tag s parent)) && negb (is_canonical o) then
     if o_ignore_empty o && only_ws content then None
     else Some (if o_remove_blanks o then strip_blanks content else content)
   else Some content.
@@ -330,24 +343,24 @@ Fixpoint split_cdata_end (s : bytes) : bytes :=
     end
   end.
 
-Definition xml_encode_text (l : xlang) (o : opts) (s : est) (str : bytes) : xres (bytes * est) :=
+Definition xml_encode_text (l : xlang) (o : opts) (parent : pinfo) (s : est) (str : bytes) : xres (bytes * est) :=
   let s' := mk_est (e_indent s) true (e_in_cdata s) (e_cur_tag s) in
   if e_in_cdata s then XOk (split_cdata_end str, s')
   else
     (* the "Indent Content" loop is guarded by wbxml_tree_node_have_child_elt(node) on the TEXT node itself,
        which has no children: never taken *)
     let tmp := syncml_type_rewrite l (e_cur_tag s) str in
-    if tag_is_binary (e_cur_tag s) then
+    if tag_is_binary (text_tag s parent) then
       match b64_enc tmp with
       | Some e => XOk (escape (is_canonical o) e, s')
       | None => XErr X_B64_ENC
       end
     else XOk (escape (is_canonical o) tmp, s').
 
-Definition parse_text (l : xlang) (o : opts) (s : est) (content : bytes) : xres (bytes * est) :=
-  match text_policy o s content with
+Definition parse_text (l : xlang) (o : opts) (parent : pinfo) (s : est) (content : bytes) : xres (bytes * est) :=
+  match text_policy o parent s content with
   | None => XOk ([], s)
-  | Some c => xml_encode_text l o s c
+  | Some c => xml_encode_text l o parent s c
   end.
 
 (* ------------------------------------------------------------------ *)
@@ -389,9 +402,9 @@ Fixpoint enc_node (l : xlang) (o : opts) (parent : pinfo) (s : est) (n : node) {
       | XErr e => XErr e
       end
     end
-  | Text c => parse_text l o s c
+  | Text c => parse_text l o parent s c
   | CData ch =>
-    match seq_nodes (enc_node l o parent) ch (set_cdata true s) with
+    match seq_nodes (enc_node l o (pinfo_cdata parent)) ch (set_cdata true s) with
     | XOk (b, s1) => XOk (s_cdata_open ++ b ++ s_cdata_close, set_cdata false s1)
     | XErr e => XErr e
     end
@@ -402,7 +415,7 @@ Fixpoint enc_node (l : xlang) (o : opts) (parent : pinfo) (s : est) (n : node) {
     match sl with
     | None => XErr X_BAD_PARAMETER
     | Some l' =>
-      match seq_nodes (enc_node l' o None) roots (est0 (e_indent s)) with
+      match seq_nodes (enc_node l' o proot) roots (est0 (e_indent s)) with
       | XOk (b, _) => XOk (cstr b, s)
       | XErr e => XErr e
       end
@@ -414,7 +427,7 @@ Definition enc_nodes (l : xlang) (o : opts) (parent : pinfo) : list node -> est 
 
 (* wbxml_tree_to_xml: header (xml_build_result / xml_fill_header) followed by the body *)
 Definition enc_xml_opts (l : xlang) (o : opts) (roots : list node) : xres bytes :=
-  match enc_nodes l o None roots (est0 0) with
+  match enc_nodes l o proot roots (est0 0) with
   | XOk (b, _) => XOk (xml_header l o ++ b)
   | XErr e => XErr e
   end.
